@@ -102,6 +102,69 @@ def structural(prop):
     return obs
 
 
+def views_rs(tier):
+    """Float-valued views under exact reals: widths = upper-lower, centers = (lower+upper)/2, normalized_bins =
+    count/width, variance(i) = variances()[i] = count*(1 - count/total).  The inner iterator of the Iter* adaptors is
+    abstract (its items are proved by the Kani harness iter_items)."""
+    import terms as tm
+    from terms import T, UINT, REAL, TRUE, FALSE, And, real
+    from prove import Prover
+    from executor import Exec, AbsIter, Arr, Opt
+    import c12_rs
+    pr = Prover("C13", tier)
+    cr = c12_rs.load(3)
+    a, b, cnt = T.sym("lower"), T.sym("upper"), T.sym("count", UINT)
+    FT = "src/traits.rs"
+    for it_ty, want, hyps in (("IterWidths", b - a, []), ("IterBinCenters", (a + b) / 2, []),
+                              ("IterNormalized", real(cnt) / (b - a), [a.lt(b)])):
+        def build():
+            st = cr.mk(it_ty, histogram_iter=AbsIter([((a, b), cnt)]))
+            return {"self": st}, list(hyps)
+        def body(e, r):
+            first = e.call(it_ty, "next", r["self"], [])
+            second = e.call(it_ty, "next", r["self"], [])
+            return first, second
+        paths = Exec(cr).run(build, body)
+        fname = FT + "::%s::next" % it_ty
+        pr.no_panic("views.%s.next.no_panic" % it_ty, fname, paths)
+        pr.sides("views.%s.next" % it_ty, fname, paths)
+        for p in paths:
+            if p.panic:
+                continue
+            first, second = p.result
+            pr.holds("views.%s.next.some_then_none" % it_ty, fname, [], TRUE if isinstance(first, Opt) and first.some and isinstance(second, Opt) and not second.some else FALSE)
+            if isinstance(first, Opt) and first.some:
+                pr.eq("views.%s.next.item" % it_ty, fname, p.pc, first.v, want)
+    # IterVariances::next and multinomial_variance
+    sum_inv = T.sym("sum_inv")
+    def buildv():
+        return {"self": cr.mk("IterVariances", histogram_iter=AbsIter([((a, b), cnt)]), sum_inv=sum_inv)}, []
+    paths = Exec(cr).run(buildv, lambda e, r: e.call("IterVariances", "next", r["self"], []))
+    for p in paths:
+        if not p.panic and isinstance(p.result, Opt) and p.result.some:
+            pr.eq("views.IterVariances.next.item", FT + "::IterVariances::next", p.pc, p.result.v, real(cnt) * (1 - real(cnt) * sum_inv))
+    # variance(i) and variances() on a histogram with 3 bins
+    c = [T.sym("c%d" % i, UINT) for i in range(3)]
+    edges = [T.sym("e%d" % i) for i in range(4)]
+    tot = real(c[0] + c[1] + c[2])
+    hy = [ci.ge(0) for ci in c] + [(c[0] + c[1] + c[2]).ge(1)]
+    def buildh():
+        return {"self": cr.mk("Histogram", range=Arr(list(edges)), bin=Arr(list(c)))}, list(hy)
+    for i in range(3):
+        paths = Exec(cr).run(buildh, lambda e, r, i=i: e.call("trait:Histogram", "variance", r["self"], [T.num(i, UINT)]))
+        pr.no_panic("views.variance(%d).no_panic" % i, FT + "::Histogram::variance", paths)
+        pr.sides("views.variance(%d)" % i, FT + "::Histogram::variance", paths)
+        for p in paths:
+            if not p.panic:
+                pr.eq("views.variance(%d).value" % i, FT + "::Histogram::variance", p.pc, p.result, real(c[i]) * (1 - real(c[i]) / tot))
+    paths = Exec(cr).run(buildh, lambda e, r: e.call("trait:Histogram", "variances", r["self"], []))
+    pr.sides("views.variances", FT + "::Histogram::variances", paths)
+    for p in paths:
+        if not p.panic:
+            pr.eq("views.variances.sum_inv", FT + "::Histogram::variances", p.pc, p.result["sum_inv"], 1 / tot)
+    return pr.obs
+
+
 def run(tier, seed):
     lens = [1, 2, 3, 4] if tier == "quick" else [1, 2, 3, 4, 10]
     job = hist_job("C13", lens, NAMES, unwind=14, timeout=900, harness_timeout=300)
@@ -111,6 +174,7 @@ def run(tier, seed):
     if tier == "thorough":
         obs += hist_const_job("C13", [1, 3], NAMES, unwind=8).run()
     obs += structural("C13")
+    obs += views_rs(tier)
     obs += vl.run_lemmas("C13", ["merge_tree", "concat", "swap"])
     meta = dict(COMMON_META)
     meta.update({
@@ -126,6 +190,7 @@ def run(tier, seed):
             "mismatch.no_mutation is decided structurally (every assert precedes every write in merge/add_assign), a sufficient condition on the real AST, not by Kani",
             "associativity/commutativity over whole histories: integer vector addition + Verus merge-tree lemma",
             "A-CBMC; A-RUSTC (the &Self operand is immutable)",
+            "float-valued views (widths, centers, normalized_bins, variance, variances) are decided by RS under exact-real semantics (A-REAL) with the inner iterator abstract; normalized_bins for non-empty bins (lower < upper); variance for a non-empty histogram",
         ],
         "explanation": "state-level bin-wise contracts per operation, bit-equality of every view item with the formula in the property statement.",
     })
